@@ -98,7 +98,7 @@ def ending_of(spec, inter):
 async def _run(rng, cfg, specs):
     from ..pair import Pair
     p = Pair(rng, cfg)
-    p.driver.horizon = 60.0
+    p.driver.horizon = 1.0e5
     await p.start()
     await p.run_specs(specs)
     tables = {}
